@@ -597,7 +597,7 @@ theorem addCount_cnt (c : Rat) (mv : MV) (hc : 0 < c) (hnn : 0 ≤ mv.cnt) : (ad
   have h1 : ¬ c ≤ 0 := by linarith
   by_cases h2 : mv.cnt ≤ 0
   · have : mv.cnt = 0 := le_antisymm h2 hnn
-    simp [h1, h2, this]
+    simp [h1, this]
   · simp [h1, h2]
 
 theorem addCount_nonneg (c : Rat) (mv : MV) (h : 0 ≤ mv.cnt) : 0 ≤ (addCount c mv).cnt := by
